@@ -21,9 +21,11 @@ rm -f $dpkg/$(basename $demo)
 for f in $mdir/*_test.go; do rm -f $dpkg/$(basename $f); done
 [ -z "$pkgs" ] && pkgs=$(git diff --name-only | xargs -n1 dirname | sort -u | sed 's|^|./|')
 go test -vet=off -count=1 $pkgs > /tmp/confirm-$name.suite.log 2>&1; rc_suite=$?
-echo "CONFIRM $name: demo-clean rc=$rc_clean (want 0) build rc=$rc_build (want 0) demo-mutant rc=$rc_mut (want !=0) suite rc=$rc_suite (want 0) pkgs=$pkgs"
+line="CONFIRM $name: demo-clean rc=$rc_clean (want 0) build rc=$rc_build (want 0) demo-mutant rc=$rc_mut (want !=0) suite rc=$rc_suite (want 0) pkgs=$pkgs"
+echo "$line"
 if [ $rc_clean -eq 0 ] && [ $rc_build -eq 0 ] && [ $rc_mut -ne 0 ] && [ $rc_suite -eq 0 ]; then
   d=/verif/seeded/$name; mkdir -p $d; cp $mdir/patch.diff $d/; cp $mdir/*_test.go $d/ ; [ -f $mdir/README.md ] && cp $mdir/README.md $d/
+  { echo "$line"; echo "commands (scratch worktree of /repo HEAD $(git -C /repo rev-parse --short HEAD), GOFLAGS=-mod=mod GOPROXY=off):"; echo "  go test -vet=off -count=1 -run '$rx' ./$dpkg   # demonstration without the change: rc=$rc_clean"; echo "  git apply patch.diff && go build ./...            # rc=$rc_build"; echo "  go test -vet=off -count=1 -run '$rx' ./$dpkg   # demonstration with the change: rc=$rc_mut"; echo "  go test -vet=off -count=1 $pkgs   # existing tests with the change: rc=$rc_suite"; } > $d/confirm.txt
   echo "KEPT $name"
 else
   tail -5 /tmp/confirm-$name.suite.log
